@@ -27,16 +27,16 @@ theorem R_connect {b b' : B} {s s' : Spec.Broker.S} (h : R b s) {c : Nat} {σ' :
     (hheld : HeldInv b'.topics.sroot s'.held) (hgood : ∀ x ∈ s'.held, good x.filter = true)
     (hown : ∀ x ∈ s'.held, x.owner < cbBase → x.owner ≠ c → b.alive x.owner = true)
     (hother : ∀ c', c' ≠ c → Spec.Broker.heldOf s' c' = Spec.Broker.heldOf s c')
-    (hrets : s'.rets = s.rets) (hov : s'.overlap = false)
-    (hnd : (s'.conns.map (·.id)).Nodup)
+    (hrets : s'.rets = s.rets)
+    (hmnd : (b'.conns.map (·.id)).Nodup) (hnd : (s'.conns.map (·.id)).Nodup)
     (hgc : ∀ c', Spec.Broker.getConn s' c' = if c' = c then some k' else Spec.Broker.getConn s c')
     (hrel : LiveRel b' s' c σ' k')
     (hcidfree : ∀ c' τ, liveSess b c' = some τ → τ.cid ≠ σ'.cid)
     (hstoreget : ∀ x, x ≠ σ'.cid → b'.storeGet x = b.storeGet x)
     (hresum : ∀ x, realCid x = true → x ≠ σ'.cid → resumable b' x = resumable b x)
     (hlookup : ∀ x, realCid x = true → x ≠ σ'.cid → s'.stored.lookup x = s.stored.lookup x) : R b' s' := by
-  refine ⟨inv', linv', qinv', hov, hheld, hgood, ?_, by rw [hrr, hrets]; exact h.rets,
-    by rw [hrets]; exact h.retsOk, by unfold IdsOk; rw [hrr]; exact h.retIds, ?_, hnd, ?_, ?_, ?_, ?_⟩
+  refine ⟨inv', linv', qinv', hheld, hgood, ?_, by rw [hrr, hrets]; exact h.rets,
+    by rw [hrets]; exact h.retsOk, by unfold IdsOk; rw [hrr]; exact h.retIds, ?_, hmnd, hnd, ?_, ?_, ?_, ?_⟩
   · intro x hx hlt
     rw [hal]
     by_cases he : x.owner = c
@@ -220,37 +220,35 @@ def specClean (req : Connect) : Bool := req.clean || req.clientId.isEmpty
 theorem spec_first_resumed (s : Spec.Broker.S) (c : Nat) (req : Connect) (a : Bool)
     (h : Spec.Broker.refusals req a = []) (subs : List (Bytes × Nat)) (o2 : List (Nat × Bool × Pub))
     (hcl : specClean req = false) (hl : s.stored.lookup (specCid c req) = some (subs, o2)) :
-    Spec.Broker.step1 s (.first c (.connect req) a) =
+    Spec.Broker.first s c (.connect req) a =
       ({ held := subs.foldl (fun h p => addHeld h c p.1 p.2) s.held, rets := s.rets,
          stored := (specCid c req, (subs, o2)) :: s.stored.filter (fun p => p.1 != specCid c req),
-         conns := s.conns.filter (fun (x : Spec.Broker.Conn) => x.id != c) ++ [⟨c, specCid c req, false, req.will, o2⟩],
-         overlap := s.overlap || s.conns.any (fun x => x.cid == specCid c req) },
+         conns := s.conns.filter (fun (x : Spec.Broker.Conn) => x.id != c) ++ [⟨c, specCid c req, false, req.will, o2⟩] },
        [.send c (.connack true 0)]) := by
   unfold specClean at hcl
   unfold specCid anonSpec at hl ⊢
-  simp only [Spec.Broker.step1, h, List.isEmpty_nil, Bool.not_true, Bool.false_eq_true, ↓reduceIte, hcl, hl,
+  simp only [Spec.Broker.first, h, List.isEmpty_nil, Bool.not_true, Bool.false_eq_true, ↓reduceIte, hcl, hl,
     Option.getD_some, Option.isSome_some, Spec.Broker.setConn]
 
 theorem spec_first_fresh (s : Spec.Broker.S) (c : Nat) (req : Connect) (a : Bool)
     (h : Spec.Broker.refusals req a = [])
     (hp : specClean req = true ∨ s.stored.lookup (specCid c req) = none) :
-    Spec.Broker.step1 s (.first c (.connect req) a) =
+    Spec.Broker.first s c (.connect req) a =
       ({ held := s.held, rets := s.rets,
          stored := if specClean req then s.stored.filter (fun p => p.1 != specCid c req)
                    else (specCid c req, ([], [])) :: s.stored.filter (fun p => p.1 != specCid c req),
-         conns := s.conns.filter (fun (x : Spec.Broker.Conn) => x.id != c) ++ [⟨c, specCid c req, specClean req, req.will, []⟩],
-         overlap := s.overlap || s.conns.any (fun x => x.cid == specCid c req) },
+         conns := s.conns.filter (fun (x : Spec.Broker.Conn) => x.id != c) ++ [⟨c, specCid c req, specClean req, req.will, []⟩] },
        [.send c (.connack false 0)]) := by
   unfold specClean at hp ⊢
   unfold specCid anonSpec at hp ⊢
   cases hcl : (req.clean || req.clientId.isEmpty) with
   | true =>
-    simp only [Spec.Broker.step1, h, List.isEmpty_nil, Bool.not_true, Bool.false_eq_true, ↓reduceIte, hcl,
+    simp only [Spec.Broker.first, h, List.isEmpty_nil, Bool.not_true, Bool.false_eq_true, ↓reduceIte, hcl,
       Option.getD_none, Option.isSome_none, Spec.Broker.setConn, List.foldl_nil]
   | false =>
     rw [hcl] at hp
     have hl := hp.resolve_left (by simp)
-    simp only [Spec.Broker.step1, h, List.isEmpty_nil, Bool.not_true, Bool.false_eq_true, ↓reduceIte, hcl, hl,
+    simp only [Spec.Broker.first, h, List.isEmpty_nil, Bool.not_true, Bool.false_eq_true, ↓reduceIte, hcl, hl,
       Option.getD_none, Option.isSome_none, Spec.Broker.setConn, List.foldl_nil]
 
 end Mqtt.Proofs.BrokerRefine
